@@ -226,7 +226,7 @@ def _read_lines(path):
         return [l.rstrip("\n") for l in f]
 
 
-def _run_shard(ctx, binp, prop, i, n, extra, results, deadline):
+def _run_shard(ctx, binp, prop, i, n, extra, results, deadline, env=None):
     cases_f = os.path.join(ctx.work, f"cases.{i}")
     out_f = os.path.join(ctx.work, f"out.{i}")
     start = 0
@@ -239,7 +239,7 @@ def _run_shard(ctx, binp, prop, i, n, extra, results, deadline):
         cmd = [binp, prop, "-tier", ctx.tier, "-seed", str(ctx.seed), "-shard", f"{i}/{n}",
                "-start", str(start), "-cases", cases_f, "-out", out_f] + extra
         try:
-            p = subprocess.run(cmd, cwd=ctx.work, env=dict(GOENV, GOMEMLIMIT="3GiB"),
+            p = subprocess.run(cmd, cwd=ctx.work, env=dict(GOENV, GOMEMLIMIT="3GiB", **(env or {})),
                                stdout=subprocess.PIPE, stderr=subprocess.STDOUT, text=True, errors="replace",
                                timeout=max(5, deadline - time.time()))
             rc, tail = p.returncode, p.stdout[-1500:]
@@ -279,12 +279,12 @@ def _run_shard(ctx, binp, prop, i, n, extra, results, deadline):
     results[i] = info
 
 
-def run_cases(ctx, binp, prop, shards=8, extra=None, budget_s=900):
+def run_cases(ctx, binp, prop, shards=8, extra=None, budget_s=900, env=None):
     """run the harness (sharded, restarted after crashes); returns (cases, go_results, stats, infos)"""
     extra = extra or []
     results = {}
     deadline = time.time() + budget_s
-    ths = [threading.Thread(target=_run_shard, args=(ctx, binp, prop, i, shards, extra, results, deadline))
+    ths = [threading.Thread(target=_run_shard, args=(ctx, binp, prop, i, shards, extra, results, deadline, env))
            for i in range(shards)]
     for t in ths:
         t.start()
@@ -440,6 +440,9 @@ def standard(ctx, spec):
     proof_broken = bool(lres["failures"]) or lres["discharged"] != lres["obligations"]
     if proof_broken:
         ctx.log("LEAN FAILURES:", lres["failures"])
+        if any(f.startswith("lake build failed") for f in lres["failures"]):
+            ctx.notes.append("the Lean build failed: the model driver used for the correspondence below is the last one "
+                             "that built (possibly stale); the violation is reported from the broken obligation")
 
     ctx.log("go: building harness against", REPO)
     binp = go_build(ctx)
